@@ -141,9 +141,9 @@ def run(ctx: Ctx) -> Result:
     COUNTS.collect(ctx.scratch)
     st = explore_all(
         ctx, [make_factory(s) for s in specs],
-        max_states=ctx.pick(6000, 60000), max_seconds=ctx.pick(110, 1500))
+        max_states=ctx.pick(6000, 80000), max_seconds=ctx.pick(400, 3000))
     counts = COUNTS.collect(ctx.scratch)
-    if not st.error and not st.violations:
+    if not st.error and not st.violations and not st.capped:
         need = ('expiries', 'expiries_exactly_at_expiry_time',
                 'expiries_after_expiry_time', 'expiries_of_queued_tasks',
                 'expiries_of_held_tasks', 'expiries_of_retrying_tasks',
